@@ -158,6 +158,28 @@ defprog! {
    }
 }
 
+
+// a recursive rule with three body clauses, two of them recursive and read through a partial index:
+// the only shape in which generated code consults `is_empty()` of a combined total+delta view
+// ("skip the rule if a body relation is empty") for a relation that is being derived
+defprog! {
+   name: tc_three_clause;
+   timeouts: yes;
+   positive: true;
+   tags: ["c02", "c05", "c13", "c14", "c20", "graph"];
+   rels: {
+      relation edge(u32, u32) [input];
+      relation path(u32, u32) [input];
+      relation meet(u32, u32) [];
+   }
+   gens: [("random", gens::random), ("diamond", gens::diamond), ("chain", gens::chain), ("dense", gens::dense), ("small", gens::small)];
+   rules: {
+      path(x, y) <-- edge(x, y);
+      path(x, z) <-- path(x, y), path(y, w), edge(w, z);
+      meet(x, z) <-- path(x, y), path(z, y), edge(x, _), if x < z;
+   }
+}
+
 pub fn all() -> Vec<ProgramDef> {
-   vec![tc::def(), tc_nonlinear::def(), same_gen::def(), multi_writer::def(), cross_noindex::def(), triangle::def(), bulk_rows::def()]
+   vec![tc::def(), tc_nonlinear::def(), same_gen::def(), multi_writer::def(), cross_noindex::def(), triangle::def(), bulk_rows::def(), tc_three_clause::def()]
 }
